@@ -105,8 +105,8 @@ def check_fit(case, ctx):
     fixed_any = any(kw.get(k) for k in ('fix_center', 'fix_pa', 'fix_eps'))
     f = radial_law(g)
     edge = min(g['x0'], g['y0'], nx - 1 - g['x0'], ny - 1 - g['y0'])
-    quant = not fixed_any and kw.get('integrmode', 'bilinear') == 'bilinear' \
-        and not kw.get('maxit')
+    area_mode = kw.get('integrmode', 'bilinear') != 'bilinear'
+    quant = not fixed_any and not kw.get('maxit')
     easy = g['law'] == 'gauss' or (g['n'] <= 2 and g['eps'] <= 0.6)
     nw = 0
     if quant and g['eps'] <= 0.6 and not (g['law'] == 'sersic' and g['n'] == 4):
@@ -121,9 +121,14 @@ def check_fit(case, ctx):
             dpa = abs(((s.pa - g['pa'] + math.pi / 2) % math.pi) - math.pi / 2)
             ep = dpa - 3 * (s.pa_err or 0)
             ei = abs(s.intens / f(s.sma) - 1) - 3 * (s.int_err or 0) / f(s.sma)
-            if ex > 0.1:
+            if ex > (0.15 if area_mode else 0.1):
                 raise Violation('centre_error', f'sma {s.sma:.2f}: centre off by '
-                                f'{ex:.3f} px beyond 3 sigma')
+                                f'{ex:.3f} px beyond 3 sigma (integrmode '
+                                f'{kw.get("integrmode", "bilinear")})')
+            if area_mode:
+                # mean / median sector integration: only the centre is
+                # calibrated (hand run: <= 0.021 px beyond 3 sigma)
+                continue
             if ep > 0.02 / max(g['eps'], 0.05):
                 raise Violation('pa_error', f'sma {s.sma:.2f}: PA off by {ep:.4f} '
                                 f'rad beyond 3 sigma (eps {g["eps"]:.2f})')
@@ -167,7 +172,7 @@ def check_fit(case, ctx):
                                 f'isophote {name} differs between the float64 '
                                 f'image and the same numbers as {dt}')
     # model image reproduces the galaxy inside the fitted region
-    if case['model'] and quant and g['law'] == 'gauss' and g['eps'] <= 0.5 and len(iso) > 6:
+    if case['model'] and quant and not area_mode and g['law'] == 'gauss' and g['eps'] <= 0.5 and len(iso) > 6:
         with warnings.catch_warnings():
             warnings.simplefilter('ignore')
             model = build_ellipse_model((ny, nx), iso)
@@ -288,7 +293,39 @@ def polar_cases(draw):
                        for _ in range(draw(st.integers(1, 6)))]}
 
 
+@st.composite
+def inward_cases(draw):
+    """Cheap fits dominated by the inward loop: flattened galaxies, the
+    outward growth cut short by maxsma."""
+    case = draw(fit_cases())
+    g = case['galaxy']
+    n = draw(st.integers(60, 100))
+    g['shape'] = [n, draw(st.sampled_from([n, n + 11]))]
+    # exactly symmetric configurations (centre on a pixel centre or corner,
+    # axes along the grid) make the sub-pixel gradient vanish exactly
+    g['x0'] = draw(st.sampled_from([0.5, 0.5, 0.47, 0.53])) * (g['shape'][1] - 1)
+    g['y0'] = draw(st.sampled_from([0.5, 0.5, 0.52])) * (g['shape'][0] - 1)
+    g['eps'] = draw(st.floats(0.45, 0.8))
+    g['pa'] = draw(st.one_of(st.sampled_from([0.0, math.pi / 2]),
+                             st.sampled_from([0.0, math.pi / 2, 0.02]),
+                             st.floats(0, math.pi)))
+    if draw(st.booleans()):
+        case['init'].update(dx=0.0, dy=0.0)
+    g['scale'] = draw(st.floats(6, 12))
+    kw = {k: v for k, v in case['kwargs'].items()
+          if k in ('integrmode', 'step', 'fix_center')}
+    kw['maxsma'] = 1.25 * g['scale'] * case['init']['sma_f']
+    case['kwargs'] = kw
+    case['model'] = False
+    case['dtype'] = None
+    return case
+
+
 SUBCHECKS = [
+    SubCheck('inward', inward_cases(), check_fit,
+             'non-trivial = every case (flattened galaxy fitted from sma0 '
+             'inwards to the centre)', quick=(16, 45), thorough=(16, 600),
+             budget_quick=60),
     SubCheck('fit', fit_cases(), check_fit,
              'non-trivial = eps >= 0.2 and initial PA more than 0.1 rad off, or '
              'a fix_* flag set', quick=(16, 6), thorough=(16, 400),
